@@ -1,6 +1,7 @@
 import FV.Drv.Common
 import FV.Model.Disc
 import FV.Model.Legal
+import FV.Model.LegalDecl
 /- op table for the disc-overlap model (C17) and the legaliser constraint system (C09); `Float` only. -/
 namespace FV.Drv
 open FV FV.Legal
@@ -89,6 +90,63 @@ def legalOp (op : String) (args : List String) : Option String :=
             let sh (o : Option Float) : String := match o with | some x => sc x | none => "none"
             let mt : String := match e.met floatFns env eps tol with | some b => b01 b | none => "none"
             s!" ; {sh (e.lhs.eval floatFns env)} {sh (e.rhs.eval floatFns env)} {mt}")
+      | .error e => "err:" ++ e.toStr
+  | "decls" => (runP (do let p ← pParams; let ms ← pList pInModule; pure (p, ms)) args).map fun (p, ms) =>
+      match netlistToUtils ms with
+      | .ok U =>
+          let ds := decls p U
+          s!"{ds.length}" ++ String.join (ds.map fun d => s!" ; {d.n.toStr}|{sc d.value}|{sc d.lb}|{sc d.ub}")
+      | .error e => "err:" ++ e.toStr
+  | "slack" => (runP (do let d ← pSc (α := Float); let i ← pSc (α := Float); let t ← pSc (α := Float); pure (d, i, t)) args).map
+      fun (d, i, t) => match slackRaw floatFns d i t with
+        | some raw => s!"{sc raw} {sc (epsValue (1e-6 : Float) raw)}"
+        | none => "none"
+  | "step" => (runP (do let p ← pParams; let ms ← pList pInModule; pure (p, ms)) args).map fun (p, ms) =>
+      match netlistToUtils ms with
+      | .ok U =>
+          let es := stepEqsOf p U
+          s!"{es.length}" ++ String.join (es.map fun e => " ; " ++ showEqn e)
+      | .error e => "err:" ++ e.toStr
+  | "stepeval" => (runP (do let p ← pParams; let eps ← pSc (α := Float); let tol ← pSc (α := Float)
+                            let ms ← pList pInModule; let cfg ← pList (pList pBox)
+                            pure (p, eps, tol, ms, cfg)) args).bind fun (p, eps, tol, ms, cfg) =>
+      if !shapeOk ms cfg then none else some <|
+      match netlistToUtils ms with
+      | .ok U =>
+          let es := stepEqsOf p U
+          let env := envOf cfg
+          let eps := epsValue (1e-6 : Float) eps
+          s!"{es.length}" ++ String.join (es.map fun e =>
+            let sh (o : Option Float) : String := match o with | some x => sc x | none => "none"
+            let mt : String := match e.met floatFns env eps tol with | some b => b01 b | none => "none"
+            s!" ; {sh (e.lhs.eval floatFns env)} {sh (e.rhs.eval floatFns env)} {mt}")
+      | .error e => "err:" ++ e.toStr
+  | "met" => (runP (do let c ← tok; let hard ← pBool; let l ← pSc (α := Float); let r ← pSc (α := Float)
+                       let eps ← pSc (α := Float); let tol ← pSc (α := Float); pure (c, hard, l, r, eps, tol)) args).bind
+      fun (c, hard, l, r, eps, tol) =>
+        let cmp? : Option Cmp := if c == "LE" then some .le else if c == "GE" then some .ge else if c == "EQ" then some .eq else none
+        cmp?.map fun cmp =>
+          let e : Eqn Float := ⟨"", "", .cst l, cmp, .cst r, hard⟩
+          match e.met floatFns (fun _ => 0.0) (epsValue (1e-6 : Float) eps) tol with | some b => b01 b | none => "none"
+  | "enforce" => (runP (do let p ← pParams; let ms ← pList pInModule; pure (p, ms)) args).map fun (p, ms) =>
+      match netlistToUtils ms with
+      | .ok U =>
+          let thr := distThreshold fifth p
+          s!"{sc thr} ;" ++ String.join ((enforceFlags thr (inputBoxes U)).map fun b => " " ++ b01 b)
+      | .error e => "err:" ++ e.toStr
+  | "rid" => (runP (do let p ← pParams; let perc ← pSc (α := Float); let ms ← pList pInModule
+                       let cfg ← pList (pList pBox); pure (p, perc, ms, cfg)) args).bind fun (p, perc, ms, cfg) =>
+      if !shapeOk ms cfg then none else some <|
+      match netlistToUtils ms with
+      | .ok U =>
+          let flags := cfg.map fun bs => turnOff perc bs (bs.map fun _ => true)
+          if flags.any (·.isNone) then "err:ZeroDivisionError" else
+          let fl := flags.map (·.getD [])
+          let es := (idxFrom 0 (U.ml.zip fl)).flatMap fun (m, (b, en)) => macroEqsEn p m b en
+          let cfg' := (cfg.zip fl).map fun (bs, en) => ridAssign bs en
+          "en " ++ " | ".intercalate (fl.map fun en => " ".intercalate (en.map b01)) ++
+          " ; cfg " ++ " | ".intercalate (cfg'.map fun bs => " ".intercalate (bs.map showBox)) ++
+          s!" ; {es.length}" ++ String.join (es.map fun e => " ; " ++ showEqn e)
       | .error e => "err:" ++ e.toStr
   | _ => none
 
